@@ -738,6 +738,98 @@ func (g *Gen) opModSvcCall() {
 	g.r.Msg(types.NewMsgCallService(modSvcName, []sdk.AccAddress{g.r.w.a.modSvcProvider}, cons, `{"header":{},"body":{"pair":"a-b"}}`, coins(cap), 1, false, false, 0, 0), "module-service")
 }
 
+// opInvalidShape sends messages that stateless or stateful validation must refuse (if some
+// validation rule is lost they reach the keeper, and the monitors judge what happens then).
+func (g *Gen) opInvalidShape() {
+	svc := g.service()
+	cons := g.consumer()
+	provs := g.providersFor(svc)
+	p0 := provs[0]
+	call := func(ps []sdk.AccAddress, in string, cap sdk.Coins, timeout int64, rep bool, freq uint64, total int64, note string) {
+		g.r.Msg(types.NewMsgCallService(svc, ps, cons, in, cap, timeout, false, rep, freq, total), "invalid: "+note)
+	}
+	b, hasB := g.someBinding()
+	id, rc, hasCtx := g.someContext()
+	switch g.rng.Intn(22) {
+	case 0:
+		call([]sdk.AccAddress{p0, p0}, goodInput, coins(5), 2, false, 0, 0, "duplicate providers")
+	case 1:
+		call(provs, goodInput, coins(5), 0, false, 0, 0, "timeout 0")
+	case 2:
+		call(provs, goodInput, coins(5), -1, true, 1, 2, "negative timeout")
+	case 3:
+		call(provs, goodInput, coins(5), 3, true, 2, 2, "frequency below timeout")
+	case 4:
+		call(provs, goodInput, coins(5), 2, true, 2, 0, "repeated with total 0")
+	case 5:
+		call(provs, goodInput, coins(5), 2, true, 2, -2, "total -2")
+	case 6:
+		eleven := append(append([]sdk.AccAddress{}, g.A.SignProv[:4]...), g.A.OddProv[:7]...)
+		call(eleven, goodInput, coins(5), 2, false, 0, 0, "eleven providers")
+	case 7:
+		call(provs, []string{"", "not json", "[]", `{"body":{}}`, `{"header":1}`}[g.rng.Intn(5)], coins(5), 2, false, 0, 0, "bad input")
+	case 8:
+		call(provs, goodInput, sdk.Coins{sdk.Coin{Denom: denom, Amount: sdk.ZeroInt()}}, 2, false, 0, 0, "zero coin in the cap")
+	case 9:
+		call(nil, goodInput, coins(5), 2, false, 0, 0, "no providers")
+	case 10:
+		g.r.Msg(types.NewMsgBindService(svc, g.provider(), coins(100000), price("1"), 0, "{}", g.owner()), "invalid: qos 0")
+	case 11:
+		bad := []string{
+			`{"price":"1stake","promotions_by_time":[{"start_time":"2030-01-01T00:00:20Z","end_time":"2030-01-01T00:00:10Z","discount":"0.5"}]}`,
+			`{"price":"1stake","promotions_by_time":[{"start_time":"2030-01-01T00:00:10Z","end_time":"2030-01-01T00:00:30Z","discount":"0.5"},{"start_time":"2030-01-01T00:00:20Z","end_time":"2030-01-01T00:00:40Z","discount":"0.6"}]}`,
+			`{"price":"1stake","promotions_by_volume":[{"volume":5,"discount":"0.5"},{"volume":2,"discount":"0.6"}]}`,
+			`{"price":"1stake","promotions_by_volume":[{"volume":0,"discount":"0.5"}]}`,
+			`{"price":"1stake","promotions_by_volume":[{"volume":2,"discount":"1.0"}]}`,
+			`{"price":"1stake","promotions_by_volume":[{"volume":2,"discount":"0"}]}`,
+			`{"price":"1stake","promotions_by_volume":[{"volume":2,"discount":"1.5"}]}`,
+			`{"price":"-1stake"}`, `{"price":"1"}`, `{"price":"1stake","extra":1}`, `{"price":"1stake","promotions_by_volume":[{"volume":2,"discount":"0.5"},{"volume":2,"discount":"0.5"}]}`,
+		}
+		g.r.Msg(types.NewMsgBindService(svc, g.provider(), coins(100000), bad[g.rng.Intn(len(bad))], 1, "{}", g.owner()), "invalid: pricing")
+	case 12:
+		g.r.Msg(types.NewMsgBindService(svc, g.provider(), coins(100000), price("1"), 1, "not json", g.owner()), "invalid: options")
+	case 13:
+		g.r.Msg(types.NewMsgDefineService([]string{"1abc", "a b", "", "s" + strings.Repeat("v", 70), "a.b"}[g.rng.Intn(5)], "d", nil, g.any20(), "a", goodSchemas), "invalid: name")
+	case 14:
+		g.r.Msg(types.NewMsgDefineService("okname", "d", nil, g.any20(), "a", []string{"", "x", `{"input":1}`, `{"input":{"type":"nosuchtype"},"output":{}}`}[g.rng.Intn(4)]), "invalid: schemas")
+	case 15:
+		g.r.Msg(types.NewMsgDefineService("okname2", "d", []string{"t", "t"}, g.any20(), "a", goodSchemas), "invalid: duplicate tags")
+	case 16:
+		if pend := g.r.pre.PendingIDs(); len(pend) > 0 {
+			r := g.r.pre.Requests[pend[0]]
+			bad := [][2]string{{goodResult, ""}, {`{"code":500,"message":"e"}`, goodOutput}, {`{"code":200}`, goodOutput}, {`{"code":201,"message":""}`, goodOutput}, {"x", goodOutput}, {goodResult, "not json"}}
+			k := bad[g.rng.Intn(len(bad))]
+			g.r.Msg(types.NewMsgRespondService(unhex(pend[0]), r.Provider, k[0], k[1]), "invalid: result/output combination")
+		}
+	case 17:
+		if hasCtx {
+			g.r.Msg(types.NewMsgUpdateRequestContext(unhex(id), nil, nil, -1, 0, 0, rc.Consumer), "invalid: negative timeout")
+			g.r.Msg(types.NewMsgUpdateRequestContext(unhex(id), nil, nil, 3, 2, 0, rc.Consumer), "invalid: frequency below timeout")
+			g.r.Msg(types.NewMsgUpdateRequestContext(unhex(id), nil, nil, 0, 0, -2, rc.Consumer), "invalid: total -2")
+			g.r.Msg(types.NewMsgUpdateRequestContext(unhex(id), []sdk.AccAddress{p0, p0}, nil, 0, 0, 0, rc.Consumer), "invalid: duplicate providers")
+		}
+	case 18:
+		if hasCtx && rc.Repeated {
+			// stateful rule: a frequency below the timeout in force, a total below the batches already issued
+			g.r.Msg(types.NewMsgUpdateRequestContext(unhex(id), nil, nil, 0, uint64(rc.Timeout)-1, 0, rc.Consumer), "invalid: frequency below the stored timeout")
+			if rc.BatchCounter > 1 {
+				g.r.Msg(types.NewMsgUpdateRequestContext(unhex(id), nil, nil, 0, 0, int64(rc.BatchCounter)-1, rc.Consumer), "invalid: total below the batch counter")
+			}
+			g.r.Msg(types.NewMsgUpdateRequestContext(unhex(id), nil, nil, g.p.MaxRequestTimeout+1, uint64(g.p.MaxRequestTimeout)+1, 0, rc.Consumer), "invalid: timeout above the bound")
+		}
+	case 19:
+		if hasB {
+			g.r.Msg(types.NewMsgUpdateServiceBinding(b.ServiceName, b.Provider, nil, "", uint64(g.p.MaxRequestTimeout)+1, "{}", b.Owner), "invalid: qos above the bound")
+			g.r.Msg(types.NewMsgUpdateServiceBinding(b.ServiceName, b.Provider, nil, "", 0, "", b.Owner), "invalid: empty options")
+		}
+	case 20:
+		g.r.Msg(types.NewMsgSetWithdrawAddress(g.owner(), nil), "invalid: empty withdrawal address")
+		g.r.Msg(types.NewMsgWithdrawEarnedFees(nil, nil), "invalid: empty owner")
+	case 21:
+		call(provs, goodInput, sdk.NewCoins(sdk.NewCoin("atom", sdk.NewInt(5)), sdk.NewCoin(denom, sdk.NewInt(5))), 2, false, 0, 0, "two-denom cap")
+	}
+}
+
 // opParams: governance changes a parameter on the live chain (never the minimum-deposit
 // terms or the base denomination, see World.ChangeParams).
 func (g *Gen) opParams() {
@@ -788,7 +880,7 @@ func (g *Gen) Step() {
 		{2, g.opDefine}, {5, func() { g.opBind(false) }}, {5, g.opUpdateBinding}, {3, g.opDisable}, {3, g.opEnable}, {3, g.opRefund},
 		{2, g.opSetWithdraw}, {10, g.opCall}, {18, g.opRespond}, {3, func() { g.opCtxControl(0) }}, {3, func() { g.opCtxControl(1) }},
 		{2, func() { g.opCtxControl(2) }}, {3, func() { g.opCtxControl(3) }}, {5, g.opWithdraw}, {24, g.opBlock},
-		{3, g.opModCreate}, {3, g.opModControl}, {3, g.opModSvcCall}, {1, g.opRestart}, {1, g.opParams},
+		{3, g.opModCreate}, {3, g.opModControl}, {3, g.opModSvcCall}, {1, g.opRestart}, {1, g.opParams}, {4, g.opInvalidShape},
 	}
 	tot := 0
 	for _, o := range ops {
